@@ -11,15 +11,13 @@ class C17(vlib.Spec):
                 "C17_uf_find_correct", "C17_uf_union_keeps_first_root",
                 "C17_sm_new_inv", "C17_sm_new_cycle", "C17_sm_new_total",
                 "C17_sm_group_order", "C17_sm_try_merge_exact", "C17_sm_try_merge_cycle_refused",
-                "C17_sm_try_merge_true_safe", "C17_sm_try_merge_preserves_modulo_partial",
-                "C17_sm_try_merge_false_sound_partial", "C17_sm_try_merge_enemy_refused_partial",
-                "C17_sm_try_merge_same_group_partial",
+                "C17_sm_try_merge_true_safe", "C17_sm_try_merge_preserves", "C17_sm_merge_phase_refines",
+                "C17_sm_try_merge_false_sound", "C17_sm_try_merge_enemy_refused",
+                "C17_sm_try_merge_same_group",
                 "C17_is_cycle_b_spec", "C17_topo_order_b_sound", "C17_uf_model_satisfies_property"]
     crate, group, binary = "h_graphalg", "dfir", "h_graphalg"
     imports = "From Coq Require Import List NArith.\nFrom HV Require Import GraphAlg.Model GraphAlg.Check.\nImport ListNotations."
-    # topo_sort and union-find statements are proved in full; the SubgraphMerge try_merge clauses are
-    # shipped as _partial (see EXPLANATION), so by DESIGN.md 2.6 the claimed level is "other"
-    level = "other"
+    level = "proof"
     trusted_base = ["coqc 8.16.1 kernel (vm_compute used for case evaluation only)",
                     "hand-written Gallina model coq/theories/GraphAlg/Model.v of graph_algorithms.rs and union_find.rs",
                     "executable property forms and oracles coq/theories/GraphAlg/Check.v",
@@ -57,25 +55,15 @@ class C17(vlib.Spec):
 
 
 EXPLANATION = (
-    "Coq 8.16.1 proofs about a branch-by-branch Gallina model + per-run correspondence with dfir_lang. "
-    "PROVED IN FULL (all graphs / all parent maps / all histories / all SMInv states, axiom-free): topo_sort Ok => "
-    "duplicate-free order containing every node with every predecessor strictly earlier (Permutation of the nodes on "
-    "closed graphs); Err => non-empty duplicate-free genuine cycle reachable from the nodes; Ok <=> no reachable cycle; "
-    "fuel bounds. Union-find: find terminates on every parent map; on every history same_set = equivalence closure of the "
-    "unions; compression is invisible; the first argument's root survives union. SubgraphMerge: SMInv holds after new; "
-    "new's Err is a genuine cycle; new never panics on closed inputs; group-order lemma (quotient edges go forward in "
-    "the group index ranges); the window-pruned DFS is totally correct (terminates within its fuel, never panics, "
-    "finds a cycle through the merged group iff one exists); try_merge = false <=> distinct groups and (enemy conflict "
-    "or cycle through the merged group) [C17_sm_try_merge_exact, both directions]; refusals and same-group merges "
-    "preserve SMInv; a true answer is safe: no enemy conflict, no cycle, and the merged partition keeps an acyclic "
-    "quotient and no enemy pair inside a group. "
-    "PARTIAL: SMInv preservation / absence of panics for ALL merge attempts is proved modulo one explicitly stated "
-    "obligation, merge_phase_refines (the representation refinement of a successful merge: window re-sort, rebuild, "
-    "reindex, predecessor/length/enemy map bookkeeping) [C17_sm_try_merge_preserves_modulo_partial]. That obligation "
-    "is NOT proved; it is covered only by the correspondence check: on every generated case the real SubgraphMerge is "
-    "run, its subgraphs()/find() are compared with the model's, and SMInv_b, the partition bookkeeping and an "
-    "independent refusal oracle are evaluated on its outputs (exhaustive on <=4-node digraphs in the thorough tier). "
-    "Hence level other, not proof.")
+    "Coq 8.16.1 proofs about a branch-by-branch Gallina model + per-run correspondence with dfir_lang. Every statement "
+    "of C17 is proved in full on the model (all graphs / parent maps / histories / SMInv states, axiom-free): topo_sort "
+    "order, cycle, Ok <=> acyclic, fuel; union-find termination, same_set = equivalence closure, first root survives; "
+    "SMInv after new; group-order lemma; total correctness of the window-pruned DFS; try_merge = false <=> distinct "
+    "groups and (enemy conflict or cycle through the merged group); true answers are safe; SMInv is preserved by every "
+    "merge attempt with no panic and no fuel exhaustion (the successful merge is the refinement theorem "
+    "merge_phase_refines_proved). What the proofs do not cover is the tie between the model and the Rust code: that is "
+    "the correspondence check of this run (model/implementation agreement + SMInv_b and independent oracles on the "
+    "implementation's outputs).")
 
 
 def main(ctx):
@@ -84,7 +72,6 @@ def main(ctx):
     spec.explanation = EXPLANATION
     spec.coverage_extra = {
         "partial_theorems": [t for t in spec.theorems if t.endswith("_partial")],
-        "unproved_obligation": "GraphAlg/PSmMerge.v: merge_phase_refines",
         "exhaustive_scopes": ("topo_sort: all digraphs on <=3 nodes (quick) / <=4 nodes incl. self loops (thorough); "
                               "SubgraphMerge: every DAG in those scopes with random enemies/merges, thorough: all 2-step "
                               "merge sequences x <=1 enemy pair on all 3-node DAGs; keys are never created in "
